@@ -125,7 +125,7 @@ Proof.
 Qed.
 
 (* the input ends strictly inside the frame: an error, and (after the fix) never io.EOF *)
-Lemma rfb_partial : forall ty b f avail, good_frame ty b f -> 0 < avail < frame_size f ->
+Lemma rfb_cut_inside : forall ty b f avail, good_frame ty b f -> 0 < avail < frame_size f ->
   read_file_block current (Some f) avail = FbErr EUnexpectedEOF.
 Proof.
   intros ty b f avail (Hf & Hh & Hb) Ha.
